@@ -565,11 +565,10 @@ class HealpixLandscape(StokesLandscape):
 
     def tree_flatten(self):  # type: ignore[no-untyped-def]
         aux_data = {
-            'shape': self.shape,
             'dtype': self.dtype,
             'stokes': self.stokes,
             'nside': self.nside,
-        }  # static values
+        }  # static values (the shape is derived from nside by the constructor)
         return (), aux_data
 
     @partial(jax.jit, static_argnums=0)
@@ -603,10 +602,9 @@ class FrequencyLandscape(HealpixLandscape):
 
     def tree_flatten(self):  # type: ignore[no-untyped-def]
         aux_data = {
-            'shape': self.shape,
             'dtype': self.dtype,
             'stokes': self.stokes,
             'nside': self.nside,
             'frequencies': self.frequencies,
-        }  # static values
+        }  # static values (the shape is derived from nside and frequencies by the constructor)
         return (), aux_data
